@@ -285,6 +285,47 @@ PROPS["C20"] = dict(
 )
 SETUP_EXTRA += [("native", "rt"), ("miri", "rt")]
 
+
+PROPS["C13"] = dict(
+    level="exploration",
+    rule=("positive texts: interface trees from a grammar-driven generator (0..6 members, type depth 0..4, every legal character "
+          "class in interface / type / field names, comments before the interface, members, fields, parameters and variants) "
+          "rendered canonically and with random legal layout (spaces, tabs, newlines between any two tokens; comments on their "
+          "own lines), plus trees with comments inside inline types (acceptance and structure only); negative texts: EVERY "
+          "truncation of every generated text up to 700 bytes, token deletion / duplication / swap / replacement / insertion, "
+          "illegal and non-ASCII characters inserted at random positions, token soup, and a fixed list of near-misses; distinct "
+          "= hash of the text"),
+    oracle=("positive: Interface::try_from is Ok and the tree read back through the accessors (names, types, order within each "
+            "member kind, comments) equals the generating tree; any text: no panic, terminates (watchdog thread), and if "
+            "accepted then (i) an independent tokenizer + recursive-descent recogniser written from the published grammar "
+            "accepts it too and (ii) the token sequence of the input equals the token sequence of the accepted tree as rendered "
+            "by the harness (nothing was ignored)"),
+    assumptions=["the recogniser judges tokens and structure only; layout questions the grammar leaves open (comments between arbitrary tokens, two members on a line, Unicode white space) are never grounds for an alarm"],
+    floor_quick=200_000, floor_thorough=5_000_000,
+    steps=[
+        dict(layer="native", monitor="c13", shards_quick=8, shards_thorough=16),
+        dict(layer="miri", monitor="c13", shards_quick=8, shards_thorough=16, budget_quick=16, budget_thorough=160),
+    ],
+)
+
+PROPS["C14"] = dict(
+    level="exploration",
+    rule=("descriptions built through the public constructors from generated trees (every type constructor, empty and non-empty "
+          "member lists, comments at interface / member / direct field / parameter / variant level; comment text single-line "
+          "and trimmed) in owned form, in borrowed &'static form, and as produced by the parser from a randomly laid out text; "
+          "every 5th also travels through a GetInterfaceDescription exchange over the virtual transport; plus the library's "
+          "own derive-built org.varlink.service description; distinct = hash of (form, tree)"),
+    oracle=("parse(render(x)) read back through the accessors equals x including comments; render(parse(render(x))) == "
+            "render(x); the library's PartialEq agrees; owned and borrowed forms of the same tree are equal; end to end: what "
+            "the client's get_interface_description(..).parse() yields equals what the service described"),
+    assumptions=["comment text is single-line and trimmed (no `# text` syntax can represent anything else)"],
+    floor_quick=20_000, floor_thorough=1_000_000,
+    steps=[
+        dict(layer="native", monitor="c14", shards_quick=4, shards_thorough=16),
+        dict(layer="miri", monitor="c14", shards_quick=8, shards_thorough=16, budget_quick=64, budget_thorough=640),
+    ],
+)
+
 LEVEL_TEXT = {}
 
 def _na():
